@@ -32,6 +32,16 @@ HasUnionType(t, names, seen) ==
     [] t.k = "record" -> \E i \in 1..Len(t.fields) : HasUnionType(t.fields[i].type, names, seen)
     [] t.k = "ref" -> IF t.name \in seen THEN FALSE ELSE HasUnionType(names[t.name], names, seen \cup {t.name})
     [] OTHER -> FALSE
+\* a union with two or more record branches somewhere (which of them a strict writer takes is not pinned)
+RECURSIVE HasMultiRecordUnion(_, _, _)
+HasMultiRecordUnion(t, names, seen) ==
+  CASE t.k = "union" -> \/ Cardinality({ i \in 1..Len(t.br) : Deref(t.br[i], names).k = "record" }) >= 2
+                        \/ \E i \in 1..Len(t.br) : HasMultiRecordUnion(t.br[i], names, seen)
+    [] t.k = "array" -> HasMultiRecordUnion(t.items, names, seen)
+    [] t.k = "map" -> HasMultiRecordUnion(t.values, names, seen)
+    [] t.k = "record" -> \E i \in 1..Len(t.fields) : HasMultiRecordUnion(t.fields[i].type, names, seen)
+    [] t.k = "ref" -> IF t.name \in seen THEN FALSE ELSE HasMultiRecordUnion(names[t.name], names, seen \cup {t.name})
+    [] OTHER -> FALSE
 Ambiguous(t, v, names) == \/ (HasBytesVal(v) /\ HasArrayType(t, names, {}))
                           \/ (HasOddTuple(v) /\ HasUnionType(t, names, {}))
 
@@ -140,6 +150,12 @@ Judge_generate(c) ==
         \* accepted by the binary and container writers and can be read back ...
         Tri("C20.writable", /\ \A i \in 1..Len(vs) : c.rts[i].ok /\ c.rts[i].back.ok
                             /\ c.filerecs.ok /\ Len(c.filerecs.recs) = Len(vs)),
+        \* a generated value names every field: the writers' strict mode takes it too, and writes the same bytes
+        IF HasMultiRecordUnion(t, names, {}) THEN Cl("C20.writable_strict", "unspec")
+        ELSE Tri("C20.writable_strict",
+                 \A i \in 1..Len(vs) :
+                    (c.rts[i].ok /\ Conforms(t, vs[i], names, [strict |-> FALSE, tuples |-> TRUE, wmode |-> "strict"]))
+                      => (c.rts[i].strict.ok /\ c.rts[i].strict.bytes = c.rts[i].bytes)),
         \* ... as the value itself, wherever the spec defines what reading returns
         IF \E i \in 1..Len(vs) : ~Conforms(t, vs[i], names, o) \/ ~c.rts[i].ok \/ ~c.rts[i].back.ok \/ ~c.filerecs.ok THEN Cl("C20.readback", "skip")
         ELSE Tri("C20.readback", \A i \in 1..Len(vs) : nrm[i].ok => (VEq(c.rts[i].back.v, nrm[i].v) /\ VEq(c.filerecs.recs[i], nrm[i].v))) >>
